@@ -6,6 +6,10 @@
      rebuild <ops>      -> acc.Build / acc.String / acc.Write called repeatedly on ONE decompiled
                            program: every call must give the tree `build` gives (Build is a pure
                            function of the program in the model; the passes memoise in the code)
+     cbuild <ops>|<ops>|...  -> acc.Build / acc.String of several independent programs called
+                           concurrently from several goroutines, repeatedly: per program the set of
+                           distinct outcomes, which must be the single sequential one (the model
+                           builds each program on its own)
      names <ops>        -> identifiers after the naming passes, by operand index
      dangling <ops>     -> pass.CheckDanglingInputs(acc.Decompile(p)) *)
 From Coq Require Import String.
@@ -60,9 +64,24 @@ Definition print_table (t : list (Z * list N)) : list N := print_list print_entr
 Definition print_progchain (pc : list op * list Z) : list N :=
   print_ops (fst pc) ++ $" | " ++ print_list print_hexZ (snd pc).
 
+Definition print_build_outcome (o : outcome script) : list N :=
+  match o with
+  | Ok t => print_script t
+  | Err c => $"!err " ++ c
+  | Panic c => $"!panic " ++ c
+  | OutOfFuel => $"!fuel"
+  end.
+
+Definition run_cbuild (a : list N) : list N :=
+  match map_opt parse_ops (split 124 a) with
+  | Some ps => r_ok (join [124] (map (fun p => print_build_outcome (build_program p)) ps))
+  | None => r_badcase
+  end.
+
 Definition run (line : list N) : list N :=
   match split sp line with
   | [f; a] =>
+      if str_eqb f $"cbuild" then run_cbuild a else
       match parse_ops a with
       | None => r_badcase
       | Some p =>
